@@ -1,6 +1,7 @@
 package props
 
 import (
+	"verif/fold"
 	"fmt"
 	"os"
 	"strings"
@@ -30,14 +31,14 @@ func lowIndexes(w *world.World) []lowIndex {
 	var out []lowIndex
 	roots := map[string]int{}
 	for _, m := range w.Snap.Master {
-		roots[m.Type+"/"+strings.ToLower(m.Name)] = m.Rootpage
+		roots[m.Type+"/"+fold.Lower(m.Name)] = m.Rootpage
 	}
 	for _, t := range w.Snap.Tables {
 		for _, ix := range t.Indexes {
 			if t.WithoutRowid && ix.Origin == "pk" {
-				out = append(out, lowIndex{t, ix, ops.Op{Table: t.Name, Lock: true}, roots["table/"+strings.ToLower(t.Name)]})
+				out = append(out, lowIndex{t, ix, ops.Op{Table: t.Name, Lock: true}, roots["table/"+fold.Lower(t.Name)]})
 			} else {
-				out = append(out, lowIndex{t, ix, ops.Op{Index: ix.Name, Lock: true}, roots["index/"+strings.ToLower(ix.Name)]})
+				out = append(out, lowIndex{t, ix, ops.Op{Index: ix.Name, Lock: true}, roots["index/"+fold.Lower(ix.Name)]})
 			}
 		}
 	}
@@ -259,7 +260,7 @@ func c17Check(c *sim.Ctx, w *world.World) {
 	u := pagewalk.PageSize(img)
 	roots := map[string]int{}
 	for _, m := range w.Snap.Master {
-		roots[m.Type+"/"+strings.ToLower(m.Name)] = m.Rootpage
+		roots[m.Type+"/"+fold.Lower(m.Name)] = m.Rootpage
 	}
 	type target struct {
 		op   ops.Op
@@ -271,11 +272,11 @@ func c17Check(c *sim.Ctx, w *world.World) {
 		if !acceptedStrict(c, d, t.Name) {
 			continue
 		}
-		targets = append(targets, target{ops.Op{Kind: "selectdone", Table: t.Name, Cols: t.ColNames()}, roots["table/"+strings.ToLower(t.Name)], true})
+		targets = append(targets, target{ops.Op{Kind: "selectdone", Table: t.Name, Cols: t.ColNames()}, roots["table/"+fold.Lower(t.Name)], true})
 		if t.WithoutRowid {
-			targets = append(targets, target{ops.Op{Kind: "iscan", Table: t.Name, Lock: true}, roots["table/"+strings.ToLower(t.Name)], false})
+			targets = append(targets, target{ops.Op{Kind: "iscan", Table: t.Name, Lock: true}, roots["table/"+fold.Lower(t.Name)], false})
 		} else {
-			targets = append(targets, target{ops.Op{Kind: "tscan", Table: t.Name, Lock: true}, roots["table/"+strings.ToLower(t.Name)], false})
+			targets = append(targets, target{ops.Op{Kind: "tscan", Table: t.Name, Lock: true}, roots["table/"+fold.Lower(t.Name)], false})
 		}
 	}
 	for _, li := range lowIndexes(w) {
